@@ -4,6 +4,7 @@ package main
 
 import (
 	"fmt"
+	"github.com/evolbioinfo/goalign/io/partition"
 	"math/rand"
 	"strings"
 
@@ -300,6 +301,13 @@ func c04(args []string) error {
 				if r.Intn(3) == 0 && k >= 2 {
 					ranges = []rg{{"A", 0, k - 2, 1}, {"B", k, L - 1, 1}, {"A", k - 1, k - 1, 1}}
 				}
+			case mode == 2 && L >= 4: // an interleaved head followed by a plain tail, under one name
+				k := 2 + r.Intn(L-2)
+				mm := 2 + r.Intn(2)
+				ranges = []rg{{"A", 0, k - 1, mm}, {"A", k, L - 1, 1}}
+				for o := 1; o < mm; o++ {
+					ranges = append(ranges, rg{[]string{"B", "C"}[o-1], o, k - 1, mm})
+				}
 			default:
 				n := 1 + r.Intn(4)
 				for i := 0; i < n; i++ {
@@ -317,10 +325,52 @@ func c04(args []string) error {
 				}
 			}
 			terms := []string{}
+			// half of the time the partition set is read from a partition file written from the same ranges
+			// (consecutive ranges of one name share a line; "/1" and single-site ranges in short form)
+			viaFile := r.Intn(2) == 0
+			for _, x := range ranges {
+				if x.s < -1 || x.e < -1 {
+					viaFile = false
+				}
+			}
+			ptext := ""
+			if viaFile {
+				var sb strings.Builder
+				for i, x := range ranges {
+					if i > 0 && ranges[i-1].n == x.n && r.Intn(4) > 0 {
+						sb.WriteString(",")
+					} else {
+						if i > 0 {
+							sb.WriteString("\n")
+						}
+						sb.WriteString("m," + x.n + "=")
+					}
+					if x.s == x.e && r.Intn(2) == 0 {
+						fmt.Fprintf(&sb, "%d", x.s+1)
+					} else {
+						fmt.Fprintf(&sb, "%d-%d", x.s+1, x.e+1)
+					}
+					if x.m != 1 || r.Intn(4) == 0 {
+						fmt.Fprintf(&sb, "/%d", x.m)
+					}
+				}
+				if len(ranges) > 0 && r.Intn(2) == 0 {
+					sb.WriteString("\n")
+				}
+				ptext = sb.String()
+				meta["partition_file"] = ptext
+			}
 			res.class, _ = guarded(5e9, func() error {
-				for _, x := range ranges {
-					if e := ps.AddRange(x.n, "m", x.s, x.e, x.m); e != nil {
+				if viaFile && len(ranges) > 0 {
+					var e error
+					if ps, e = partition.NewParser(strings.NewReader(ptext)).Parse(a.Length()); e != nil {
 						return e
+					}
+				} else {
+					for _, x := range ranges {
+						if e := ps.AddRange(x.n, "m", x.s, x.e, x.m); e != nil {
+							return e
+						}
 					}
 				}
 				als, e := a.Split(ps)
